@@ -4,7 +4,7 @@
    model theorems (proved in EFModel.C19_Return1D_proofs / EFModel.C19_Commit). *)
 From Coquelicot Require Import Coquelicot.
 From Coq Require Import Reals List Lra Bool.
-From EFModel Require Import C19_Return1D C19_Return1D_proofs C19_Commit C19_Lift.
+From EFModel Require Import C19_Return1D C19_Return1D_proofs C19_Commit C19_Lift C19_PlaneStress C19_Radial C19_Tangent.
 From EFP Require Import Gen_C19.
 Import List ListNotations.
 Open Scope R_scope.
@@ -90,6 +90,23 @@ Proof.
                 destruct (Rltb 0 (phi Rops (pairs pt) 0 - sy - Rh (pOld pt))); split;
                 first [reflexivity | ring] ] ] ].
 Qed.
+
+(* the plane-stress outer loop: the translated per-point break test and eps_zz update are the
+   model's.  (Gen_C19.v exists only if the source's test has the form np.max(<per-point>) < tol:
+   a test that does not bound every point, e.g. abs(max(r)), is a translation error.) *)
+Theorem gen_plane_stress_match : forall (Pt : Type) (szz czz : Pt -> R -> R) tol pt e,
+    gen_ps_small (szz pt e) tol = ps_small Pt szz tol (pt, e) /\
+    gen_ps_update e (szz pt e) (czz pt e) = snd (ps_update Pt szz czz (pt, e)).
+Proof. intros; split; reflexivity. Qed.
+
+(* _spectral.Tangent reduces to  T [diag(d) + a (x) b] Ti C  (translator, C symmetric); the two
+   rank-one factors and the diagonal are the hand-transcribed ones, and the stored d is dfac *)
+Theorem gen_tangent_match : forall lam y d theta slope drdtheta phi active,
+    gen_tan_diag d = d /\
+    gen_tan_a lam y d theta slope drdtheta active = tan_a lam y d theta slope drdtheta active /\
+    gen_tan_b lam y d phi = tan_b lam y d phi /\
+    gen_ret_d lam theta = dfac Rops theta lam.
+Proof. intros; repeat split; reflexivity. Qed.
 
 (* ------------------------------------------------------------------------------------------ *)
 (* B. von Mises / Hill: the flow direction P sigma is deviatoric                               *)
@@ -210,6 +227,58 @@ Theorem C19_plastic_work_nonneg_6d :
 Proof. exact plastic_work_6d. Qed.
 Print Assumptions C19_plastic_work_nonneg_6d.
 
+(* plane stress: leaving the outer loop through its break test bounds |sig_zz| at EVERY point of
+   the field (any number of elements x Gauss points, any material response szz/czz) *)
+Theorem C19_plane_stress_exit_all_points :
+  forall (Pt : Type) (szz czz : Pt -> R -> R) tol fuel field st',
+    ps_loop Pt szz czz tol fuel (ps_start Pt field) = Some st' ->
+    Forall (fun s => Rabs s < tol) (ps_returned_szz Pt szz st') /\ map fst st' = field.
+Proof. exact plane_stress_exit_all_points. Qed.
+Print Assumptions C19_plane_stress_exit_all_points.
+
+(* radial return (all non-zero eigenvalues equal, linear hardening, no rate law): unique root,
+   strictly decreasing residual, Newton error e' = (lam B / D) e^2, monotone convergence from 0 *)
+Theorem C19_radial_root_unique : forall lam H sy dt ps p,
+    uniform lam ps -> 0 < lam -> 0 <= H -> 0 < phi Rops ps 0 -> 0 < sy + H * p -> 0 < Ac H sy ps p ->
+    forall th, 0 <= th ->
+    (resid Rops (fun x => H * x) None dt sy (mkPoint ps p) th = 0 <-> th = theta_star lam H sy ps p).
+Proof. intros; apply radial_root_unique; assumption. Qed.
+Print Assumptions C19_radial_root_unique.
+
+Theorem C19_radial_return_converges : forall lam H sy tol dt ps p,
+    uniform lam ps -> 0 < lam -> 0 <= H -> 0 < phi Rops ps 0 -> 0 < sy + H * p -> 0 < Ac H sy ps p ->
+    0 < tol * sy ->
+    (forall maxIter, exists th,
+        solve Rops (fun x => H * x) (fun _ => H) None dt sy tol (fun _ _ => 0) maxIter [mkPoint ps p]
+        = [(mkPoint ps p, true, th)] /\
+        0 <= th <= theta_star lam H sy ps p /\
+        (exit_small Rops (fun x => H * x) None dt sy tol [(mkPoint ps p, true, th)] = true \/
+         theta_star lam H sy ps p - th <= theta_star lam H sy ps p * qc lam H sy ps p ^ maxIter)) /\
+    (exists N, forall maxIter, (N <= maxIter)%nat ->
+        exit_small Rops (fun x => H * x) None dt sy tol
+          (solve Rops (fun x => H * x) (fun _ => H) None dt sy tol (fun _ _ => 0) maxIter [mkPoint ps p]) = true).
+Proof. exact radial_return_converges. Qed.
+Print Assumptions C19_radial_return_converges.
+
+(* consistent tangent, one eigen-pair, linear hardening, no rate law: the returned tangent core
+   d + a*b (evaluated with the model's drdtheta and phi at the converged theta_star) is the
+   derivative of the returned eigen-stress with respect to the trial eigen-stress, = H/(H+lam) *)
+Theorem C19_tangent_is_derivative_1d : forall lam H sy dt p,
+    0 < lam -> 0 <= H -> 0 < sy + H * p ->
+    forall y0, 0 < y0 -> 0 < Ac H sy (ps1 lam y0) p ->
+    let th := theta_of lam H sy p y0 in
+    is_derive (s_of lam H sy p) y0
+      (tan_core_1d lam y0 (dfac Rops th lam) th H
+                   (drdth Rops (fun _ => H) None dt (mkPoint (ps1 lam y0) p) th)
+                   (phi Rops (ps1 lam y0) th) true) /\
+    tan_core_1d lam y0 (dfac Rops th lam) th H
+                (drdth Rops (fun _ => H) None dt (mkPoint (ps1 lam y0) p) th)
+                (phi Rops (ps1 lam y0) th) true = H / (H + lam).
+Proof.
+  intros. split; [apply tangent_is_derivative_1d | apply radial_1d_tangent_value]; assumption.
+Qed.
+Print Assumptions C19_tangent_is_derivative_1d.
+
 Theorem C19_commit_only_on_save :
   forall (Strain Stress Tangent State Group : Type) (zeros : State)
          (integrate : Strain -> State -> Stress * Tangent * State * bool)
@@ -231,6 +300,16 @@ Theorem C19_save_commits_last_trial :
               = trial_of Stress Tangent State (integrate (eps g) (committed State Group zeros s g)).
 Proof. exact save_commits_last_trial. Qed.
 Print Assumptions C19_save_commits_last_trial.
+
+(* replacing the mesh (InElastic._Init_internal_variables) = a fresh material history *)
+Theorem C19_mesh_replacement_is_fresh :
+  forall (Strain Stress Tangent State Group : Type) (zeros : State)
+         (integrate : Strain -> State -> Stress * Tangent * State * bool) (s : sim State Group) g,
+    committed State Group zeros (exec Strain Stress Tangent State Group zeros integrate s (ResetMesh Strain Group)) g = zeros /\
+    z State Group (exec Strain Stress Tangent State Group zeros integrate s (ResetMesh Strain Group)) g = None /\
+    hist State Group (exec Strain Stress Tangent State Group zeros integrate s (ResetMesh Strain Group)) = hist State Group s.
+Proof. intros; apply reset_is_fresh. Qed.
+Print Assumptions C19_mesh_replacement_is_fresh.
 
 Theorem C19_elastic_exact :
   forall (State : Type) (spectral flow : behavior -> Vec -> State -> R -> Vec * Mat * State * bool)
